@@ -5,6 +5,7 @@ Exit codes: 0 held / 1 violation (VIOLATION line printed) / 2 undecided / 3 chec
 """
 import json
 import os
+import re
 import sys
 import time
 import traceback
@@ -27,6 +28,37 @@ ASSUMPTIONS_ENGINE = [
 ]
 
 
+def scan_assumptions():
+    """mechanical scan, run before every report: where do the loaded contract modules ASSUME something instead of proving it -
+    `st.assume(...)` sites inside hook / result-builder functions (the meaning given to external calls) and contracts marked
+    `assumed=True`.  One line per module; the hand-written trusted base says what those assumptions are."""
+    import ast
+    import sys
+    out = []
+    for name, mod in sorted(sys.modules.items()):
+        if not name.startswith("contracts.") or not getattr(mod, "__file__", None):
+            continue
+        try:
+            tree = ast.parse(open(mod.__file__).read())
+        except (OSError, SyntaxError):
+            continue
+        sites, assumed = {}, 0
+        for top in tree.body:
+            for n in ast.walk(top):
+                if isinstance(n, ast.Call):
+                    if isinstance(n.func, ast.Attribute) and n.func.attr == "assume":
+                        fn = getattr(top, "name", "<module level>")
+                        sites[fn] = sites.get(fn, 0) + 1
+                    for kw in n.keywords:
+                        if kw.arg == "assumed" and isinstance(kw.value, ast.Constant) and kw.value.value is True:
+                            assumed += 1
+        if sites or assumed:
+            fns = ", ".join(f"{k} x{v}" for k, v in sorted(sites.items()))
+            out.append(f"scan {name.replace('.', '/')}.py: {sum(sites.values())} assume site(s) in hooks / builders"
+                       f"{' (' + fns + ')' if fns else ''}; {assumed} contract(s) marked assumed=True")
+    return out
+
+
 def load_known():
     out = []
     if os.path.exists(KNOWN):
@@ -35,6 +67,10 @@ def load_known():
             if line and not line.startswith("#"):
                 out.append(json.loads(line))
     return out
+
+
+def _path_free(name):
+    return re.sub(r"(exit=(?:return|raise:[A-Za-z_.]+))#\d+", r"\1", re.sub(r"~\d+", "", name))
 
 
 class Report:
@@ -184,7 +220,10 @@ class Report:
         old_sha, new_sha = (b.get("contracts") or {}).get(key), self.cur_sha.get(key)
         if not old_sha or not new_sha or old_sha == new_sha:
             return False
-        return rec["name"] in set(b.get("discharged") or ())
+        # names are compared modulo the path ordinals (`~n` duplicate counter, `#k` exit ordinal): the same post-condition / invariant
+        # conjunct of the same case on a path that did not exist before (the change added a branch) is the same named obligation
+        base = {_path_free(n) for n in (b.get("discharged") or ())}
+        return _path_free(rec["name"]) in base
 
     def _is_known(self, name, native=None):
         """A recorded finding suppresses exactly what it lists: an obligation by name, a bounded witness by its exact id
@@ -280,7 +319,7 @@ class Report:
         }
         cov.update(self.extra)
         ev = {"property_id": self.pid, "tier": self.tier, "seed": self.seed, "level": level, "coverage": cov,
-              "assumptions": self.assumptions, "wall_s": round(time.time() - self.t0, 2), "violations": len(self.violations)}
+              "assumptions": self.assumptions + scan_assumptions(), "wall_s": round(time.time() - self.t0, 2), "violations": len(self.violations)}
         with open(os.path.join(EVID, f"{self.pid}.json"), "w") as fh:
             json.dump(ev, fh, indent=1, default=str)
         print(f"[{self.pid}] tier={self.tier} obligations={n_obl} discharged={n_dis} bounded_evaluations="
